@@ -510,13 +510,16 @@ fn main() {
     //--- (1) baseline: everything satisfied ------------------------------------------------
     {
         let sp = ctx.space("baseline.accept",
-            "kind x 6 signed-attribute orders x signing-time form x digest-alg NULL/absent x 4 signature-algorithm spellings x strict/relaxed, all conditions satisfied; plus one digest-violated twin per (kind, order) so that both classes occur; non-trivial = distinct object encodings");
+            "kind x 6 signed-attribute orders x signing-time form x digest-alg NULL/absent x 4 signature-algorithm spellings x strict/relaxed, all conditions satisfied; plus a digest-violated and a sid-violated twin per (kind, order) so that both classes occur; non-trivial = distinct object encodings");
         let mut jobs = Vec::new();
         for k in KINDS { for o in &perms { for st_gen in [false, true] { for dn in [false, true] { for sa in 0..4u8 { for strict in [true, false] {
             let mut p = Plan::base(k); p.order = *o; p.st_gen = st_gen; p.digest_null = dn; p.sig_alg = sa;
             jobs.push((p, strict));
         }}}}}}
-        for k in KINDS { for o in &perms { let mut p = Plan::base(k); p.order = *o; p.digest = DigestV::FlipLast; jobs.push((p, true)); } }
+        for k in KINDS { for o in &perms {
+            let mut p = Plan::base(k); p.order = *o; p.digest = DigestV::FlipLast; jobs.push((p, true));
+            let mut p = Plan::base(k); p.order = *o; p.sid = SidV::OtherSki; jobs.push((p, true));
+        } }
         let t = Tally::new();
         jobs.par_iter().for_each(|(p, strict)| {
             let bytes = assemble(&fx, p, &ees[&(p.kind, p.ee)]);
@@ -533,14 +536,14 @@ fn main() {
     //--- (2) signed-attribute total size ----------------------------------------------------
     {
         let sp = ctx.space("attrs.size",
-            "generic object, content-type OID 1.2(.1)^k for k = 0..=max, x UTCTime/GeneralizedTime signing time x 6 orders, correctly signed over the DER SET OF encoding: all accepted; twin with the signature over the [0]-tagged encoding: rejected; non-trivial = distinct total lengths of the signed attributes reached (reported with the gaps in 100..=300)");
+            "generic object, content-type OID 1.2(.1)^k for k = 0..=max, x UTCTime/GeneralizedTime signing time x 6 orders, correctly signed over the DER SET OF encoding: all accepted; twins with the signature over the [0]-tagged encoding or a wrong digest (first order only): rejected; non-trivial = distinct total lengths of the signed attributes reached (reported with the gaps in 100..=300)");
         let kmax = 230usize;
         let mut jobs = Vec::new();
         let modes: &[bool] = if thorough { &[true, false] } else { &[true] };
         for k in 0..=kmax { for st_gen in [false, true] { for (oi, o) in perms.iter().enumerate() { for &strict in modes {
             // the [0]-tag twin only for the first order (it needs one more signature each)
-            jobs.push((k, st_gen, *o, false, strict));
-            if oi == 0 { jobs.push((k, st_gen, *o, true, strict)) }
+            jobs.push((k, st_gen, *o, 0u8, strict));
+            if oi == 0 { jobs.push((k, st_gen, *o, 1u8, strict)); jobs.push((k, st_gen, *o, 2u8, strict)) }
         }}}}
         let lens: Mutex<BTreeSet<usize>> = Mutex::new(BTreeSet::new());
         let t = Tally::new();
@@ -549,7 +552,10 @@ fn main() {
             let mut p = Plan::base(Kind::Gen);
             let mut arcs = vec![1u64, 2]; arcs.extend(std::iter::repeat(1).take(k));
             p.ect = arcs; p.order = o; p.st_gen = st_gen;
-            if twin { p.sig = SigV::OverImplicitTag }
+            if twin == 1 { p.sig = SigV::OverImplicitTag }
+            if twin == 2 { p.digest = DigestV::FlipFirst }
+            let twin_name = ["SET OF", "[0]-tagged", "SET OF (digest attribute wrong)"][twin as usize];
+            let twin = twin != 0;
             let alen = der::cat(&plan_attrs(&p)).len();
             let bytes = assemble(&fx, &p, cert);
             let (v, _) = run(&fx, Kind::Gen, &bytes, &fx.ca, strict, Entry::At);
@@ -558,7 +564,7 @@ fn main() {
             expect(&ctx, "C02.attrs.size.accept", "C02.attrs.size.reject", !twin, &v,
                 || format!("kind=generic attrs_len={alen} ct_oid_octets={} order={} st={} signed-over={} strict={strict}", k + 1,
                     o.iter().map(|&i| ATTR_NAMES[i]).collect::<Vec<_>>().join(","), if st_gen { "generalized" } else { "utc" },
-                    if twin { "[0]-tagged" } else { "SET OF" }));
+                    twin_name));
         });
         let lens = lens.into_inner().unwrap();
         let gaps: Vec<usize> = (100..=300).filter(|l| !lens.contains(l)).collect();
@@ -577,7 +583,7 @@ fn main() {
     //--- (3) content sizes --------------------------------------------------------------------
     {
         let sp = ctx.space("content.size",
-            "eContent of exactly {0,1,127,128,65535,65536} octets for the generic kind; ROA / manifest / ASPA eContent tuned to exactly {127,128,65535,65536} octets plus the default; x 2 attribute orders, accepted; twin with the last digest bit flipped, rejected; non-trivial = distinct (kind, size) reached");
+            "eContent of exactly {0,1,127,128,65535,65536} octets for the generic kind; ROA / manifest / ASPA eContent tuned to exactly {127,128,65535,65536} octets plus the default; x 2 attribute orders, accepted; twins with the last digest bit flipped / signed by another key, rejected; non-trivial = distinct (kind, size) reached");
         let mut contents: Vec<(Kind, Vec<u8>)> = Vec::new();
         for n in [0usize, 1, 127, 128, 65535, 65536] {
             contents.push((Kind::Gen, (0..n).map(|i| (i * 7 + 3) as u8).collect()));
@@ -591,13 +597,15 @@ fn main() {
         for k in [Kind::Roa, Kind::Mft, Kind::Aspa] { contents.push((k, default_content(k))) }
         // the ASPA EE may not carry IP resources; the ROA EE must cover 10/8
         let mut jobs = Vec::new();
-        for (ci, _) in contents.iter().enumerate() { for o in [perms[0], perms[5]] { for bad in [false, true] { jobs.push((ci, o, bad)) } } }
+        for (ci, _) in contents.iter().enumerate() { for o in [perms[0], perms[5]] { for bad in [0u8, 1, 2] { jobs.push((ci, o, bad)) } } }
         let t = Tally::new();
         let sizes: Mutex<BTreeSet<(Kind, usize)>> = Mutex::new(BTreeSet::new());
         jobs.par_iter().for_each(|&(ci, o, bad)| {
             let (k, c) = &contents[ci];
             let mut p = Plan::base(*k); p.content = c.clone(); p.order = o;
-            if bad { p.digest = DigestV::FlipLast }
+            if bad == 1 { p.digest = DigestV::FlipLast }
+            if bad == 2 { p.sig = SigV::OtherKey }
+            let bad = bad != 0;
             let bytes = assemble(&fx, &p, &ees[&(*k, EeV::Ok)]);
             let (v, _) = run(&fx, *k, &bytes, &fx.ca, true, Entry::At);
             sp.eval(); t.add(v.class());
@@ -610,7 +618,7 @@ fn main() {
         sp.set("sizes", serde_json::json!(sizes.iter().map(|(k, n)| format!("{}:{}", k.name(), n)).collect::<Vec<_>>()));
         sp.set("sizes_not_reachable", serde_json::json!(missing));
         sp.sample_str(|| format!("sizes: {:?}", sizes.iter().map(|(k, n)| format!("{}:{}", k.name(), n)).collect::<Vec<_>>()));
-        sp.done(true, "6 generic sizes + 4 tuned sizes x 3 typed kinds + defaults, x 2 orders x {good, bad digest}");
+        sp.done(true, "6 generic sizes + 4 tuned sizes x 3 typed kinds + defaults, x 2 orders x {good, bad digest, other key}");
     }
 
     //--- (4) condition vector -----------------------------------------------------------------
@@ -821,7 +829,7 @@ fn roa_coverage(ctx: &Ctx, fx: &Fx, thorough: bool) {
 
     // (a) single prefix, all max-lengths
     let sp = ctx.space("roa.coverage.single",
-        "one-prefix ROAs: every prefix of the trie of lengths 0..=4 (thorough: 0..=6) plus first/last host address of every /3 atom, x maxLength in {absent, len, len+1, family width}, both families, x EE certificates holding every subset of the eight /3 atoms of that family (other family absent): accepted <=> every atom under the prefix is in the subset; non-trivial = cases with a subset that is neither empty nor full");
+        "one-prefix ROAs: every prefix of the trie of lengths 0..=4 (thorough: 0..=6) plus first/last host address of every /3 atom, x maxLength in {absent, len, len+1, family width}, both families, x EE certificates holding every subset of the eight /3 atoms of that family (other family absent): accepted <=> every atom under the prefix is in the subset; in addition 10 prefixes around 10.0.0.0/24 (2001:db8::/32) x the 9 EE ranges whose ends lie one address below / at / above the prefix ends: accepted <=> range contains prefix; non-trivial = cases with a subset that is neither empty nor full, and all unaligned-range cases");
     for v6 in [false, true] {
         let w = fam_width(v6) as u8;
         let mut pf: Vec<Pfx> = Vec::new();
@@ -852,7 +860,36 @@ fn roa_coverage(ctx: &Ctx, fx: &Fx, thorough: bool) {
         sp.merge_outcomes(&t.oc.lock().unwrap());
         sp.sample_str(|| format!("{} with EE atoms 0b00000110 -> {}", render_pfx(&pf[10], v6), covered(0b110, &pf[10], v6)));
     }
-    sp.done(true, &format!("({} trie nodes + 16 host addresses) x up to 4 max-lengths x 256 subsets x 2 families", if thorough { 127 } else { 31 }));
+    // unaligned EE ranges around one prefix: every combination of the range ends one address below / at / above the prefix ends
+    for v6 in [false, true] {
+        let w = fam_width(v6);
+        let (base, plen): (u128, u8) = if v6 { (0x2001_0db8u128 << 96, 32) } else { (0x0a00_0000, 24) };
+        let span = (1u128 << (w - plen as u32)) - 1;
+        let end = base + span;
+        let half = (span + 1) / 2;
+        let mk = |bits: u128, len: u8| Pfx { bits, len, max: None };
+        let pf = vec![mk(base, plen), mk(base, plen + 1), mk(base + half, plen + 1), mk(base, w as u8), mk(end, w as u8),
+                      mk(base & !((span << 1) | 1), plen - 1), mk(end + 1, plen), mk(base - span - 1, plen), mk(base + 1, w as u8), mk(end - 1, w as u8)];
+        let ranges: Vec<(u128, u128)> = [base - 1, base, base + 1].into_iter().flat_map(|lo| [end - 1, end, end + 1].into_iter().map(move |hi| (lo, hi))).collect();
+        let ecerts: Vec<Vec<u8>> = ranges.par_iter().enumerate().map(|(i, &(lo, hi))| {
+            let c = Claim::Blocks(vec![(lo, hi)]);
+            ee_der(fx, if v6 { Res { v4: Claim::Missing, v6: c, asn: Claim::Missing } } else { Res { v4: c, v6: Claim::Missing, asn: Claim::Missing } }, EeV::Ok, 900 + i as u128)
+        }).collect();
+        let signed: Vec<Signed> = pf.par_iter().map(|p| {
+            let a = [to_roa_addr(p, v6)];
+            presign(fx, Kind::Roa, if v6 { der::roa_content(None, 64496, None, Some(&a)) } else { der::roa_content(None, 64496, Some(&a), None) })
+        }).collect();
+        for (pi, p) in pf.iter().enumerate() { for (ri, &(lo, hi)) in ranges.iter().enumerate() {
+            let pmax = p.bits + if p.len as u32 == w { 0 } else { (1u128 << (w - p.len as u32)) - 1 };
+            let want = lo <= p.bits && pmax <= hi;
+            let bytes = wrap(fx, Kind::Roa, &signed[pi], &ecerts[ri]);
+            let (v, _) = run(fx, Kind::Roa, &bytes, &fx.ca, true, Entry::Process(true));
+            sp.eval(); sp.nontrivial(1); sp.outcome(v.class());
+            expect(ctx, "C02.roa.covered.accept", "C02.roa.uncovered.reject", want, &v,
+                || format!("roa prefix={} ee-range=[{:#x},{:#x}] ({})", render_pfx(p, v6), lo, hi, if v6 { "v6" } else { "v4" }));
+        }}
+    }
+    sp.done(true, &format!("({} trie nodes + 16 host addresses) x up to 4 max-lengths x 256 subsets x 2 families; 10 prefixes x 9 unaligned EE ranges x 2 families", if thorough { 127 } else { 31 }));
 
     // (b) two prefixes in one family, (c) one prefix in each family
     let sp = ctx.space("roa.coverage.multi",
